@@ -5,13 +5,16 @@ CONFIG = dict(
     level_text="Kernel-checked Lean theorems over a hand-written model of accept_connection / add_peer / apply_peer_group / "
                "build_local_cap / peer_role / PeerCodec::negotiate / the effective send-max / negotiate_gr / negotiate_llgr / "
                "IpNet::contains / force_down / the end of PeerSession::run and the gRPC enable-disable-delete-shutdown-reset "
-               "bodies: the accept decision (accept_iff), prefix containment = first mask bits (contains_iff_cover), "
+               "handlers: the accept decision (accept_iff), prefix containment = first mask bits (contains_iff_cover), "
                "configured-or-inherited parameters incl. advertised capabilities (params_inherited[_dynamic]), role derivation, "
                "mirror-image negotiation and feature-iff-both, send-max = codec add-path tx (S26), GR/LLGR symmetry, and the "
                "dynamic-neighbour GC invariant over ALL histories; plus the master theorem that the C16 reference checker "
-               "(written from the property text) accepts every model run except one recorded open finding (F16c).  The model is "
+               "(written from the property text) accepts every model run except the recorded open finding F16c (three clauses, only in histories with a tear-down).  The model is "
                "tied to the code by running the real accept_connection over real loopback sockets (127.x.y.z / ::1 sources), "
-               "the real PeerSession::run (the OPEN is read back from the wire), the real gRPC handlers, PeerFsm and "
+               "the real PeerSession::run (the OPEN is read back from the wire; the remote end may answer with a wrong-AS or right-AS OPEN "
+               "and take the session to Established), the real gRPC handlers (called in-process through GrpcService; neighbours that can be written as an API message are "
+               "added through the real AddPeer handler = PeerParams::try_from + apply_peer_group + add_peer, dynamic prefixes through "
+               "the real AddDynamicNeighbor handler = IpNet::from_str), PeerFsm and "
                "PeerCodec::negotiate on the same generated cases, diffing every observation, with the reference checker as "
                "oracle on the real outputs.",
     level_note="Trusted: Lean kernel; axioms propext/Classical.choice/Quot.sound; the hand-written model (checked only by the "
@@ -24,6 +27,7 @@ CONFIG = dict(
     lean_modules=["Rbgp.Accept.Props"],
     theorems=[
         "Rbgp.Accept.Props.check_run_ok",
+        "Rbgp.Accept.Props.check_run_ok_without_teardown",
         "Rbgp.Accept.Props.wfCase_sound",
         "Rbgp.Accept.Props.accept_iff",
         "Rbgp.Accept.Props.accept_iff_partial",
@@ -44,6 +48,7 @@ CONFIG = dict(
         "Rbgp.Accept.Props.reach_inv",
         "Rbgp.Accept.Props.dynamic_peer_gc",
         "Rbgp.Accept.Props.dynamic_peer_removed_with_last_connection",
+        "Rbgp.Accept.Props.dynamic_state_while_connected_fails",
     ],
     harness=dict(kind="daemon", test="event::verif_event::c16::verif_main"),
     profiles=["debug"],
@@ -60,21 +65,25 @@ CONFIG = dict(
          "IPv4 and IPv6 with masks 0..len, out-of-range masks, bit flips at the mask boundary, host bits set in the prefix, "
          "other address family; (3) histories: global AS, optional confederation, 0-3 peer groups (overlapping / "
          "non-canonical / IPv6 dynamic prefixes, duplicate names), 0-3 configured neighbours (own vs inherited settings, "
-         "unknown group, duplicate address, admin-down), 1-14 operations connect(A|P) / disc / enable / disable / delete / "
-         "shutdown / reset over 6 colliding loopback addresses; (4) malformed lines (truncation, bad family, non-loopback "
+         "unknown group, duplicate address, admin-down), 1-14 operations connect(A|P) / disc (remote end goes away after the OPEN) / discx (remote end answers with an OPEN "
+         "of a guessed-right or wrong AS, then KEEPALIVE: Established) / enable / disable / delete / shutdown / reset over 6 colliding "
+         "loopback addresses, disc aimed at sessions predicted to exist and API operations at connected addresses, export "
+         "policies by name (existing and non-existing); (4) malformed lines (truncation, bad family, non-loopback "
          "source, unknown op, out-of-range numbers).  Non-trivial = a connection was accepted or rejected, a family / GR / "
          "LLGR was negotiated, a prefix matched, or contains panicked; distinct = distinct case line.",
-    expect_tokens=["(accept ", "(accept-amb ", "(reject 0)", "(disc (open ", "(disc (notif 6 2))", "(disc (notif 6 3))",
+    expect_tokens=["(notif 2 2)", "keepalive end-of-rib", "(some (accept (", "(some (reject (", "(accept ", "(accept-amb ", "(reject 0)", "(disc (open ", "(disc (notif 6 2))", "(disc (notif 6 3))",
                    "no-session", "(api ok)", "(api notfound)", "aborted", "rr-client", "rs-client", "confed", "ibgp", "ebgp",
                    "(ok t)", "(ok f)", "(panic)", "(bad-case)", "(enh ", "(gr (", "(llgr (", " t t)", " t f)", " f t)",
-                   "(codec () ", "t t t)", "(some accept)", "(some reject)"],
+                   "(codec () ", "t t t)", "(65537 f f t)", "(65664 f f t)", "f f t)"],
     trusted_base=["model Rbgp/Accept/Model.lean of daemon/src/event/mod.rs (accept_connection, add_peer, force_down, "
                   "apply_disconnect + tail of PeerSession::run, negotiate_gr/llgr, peer_role), event/peer.rs (build, "
                   "build_local_cap, apply_peer_group), event/grpc.rs (five handlers), fsm.rs (effective send-max), "
                   "packet/src/bgp.rs (PeerCodec::negotiate, IpNet::contains)",
-                  "harness/daemon/c16.rs: builds PeerParams/PeerGroup/Global from the case, binds loopback sources, runs the "
+                  "harness/daemon/c16.rs: builds PeerParams/PeerGroup/Global from the case (neighbours with prefix limits, GR/LLGR, hold 0 or "
+                  "an add-path mode that disagrees with send-max are not expressible as an API Peer and go through "
+                  "apply_peer_group + Global::add_peer directly; the YAML configuration loader is not driven), binds loopback sources, runs the "
                   "real session task with the remote end closing after the first message; capability lists are compared "
-                  "after sorting their hash-ordered parts; the private extended_nexthop flag is read through the encoder",
+                  "after sorting their hash-ordered parts; what the encoder does with extended next hop for IPv4 unicast is read through the encoder",
                   "the drivers run model and oracle only on cases passing the decidable guard Codec.wfCase, which implies "
                   "the hypothesis CaseWF of check_run_ok (theorem wfCase_sound)"],
     modelled_not_verified=["TTL / GTSM / MD5 socket options set by accept_connection (neighbours are generated without them)",
@@ -283,48 +292,150 @@ def opt_num(r, xs, none_w=1):
     return "none" if x is None else "(some %d)" % x
 
 
+# mostly disjoint pools of dynamic prefixes per group (overlap between groups abandons the history)
+NET_POOLS = {
+    "g1": [([127, 0, 2, 0], 24), ([127, 0, 2, 8], 29), ([127, 0, 2, 9], 32), ([127, 0, 2, 9], 31), ([127, 0, 2, 10], 31)],
+    "g2": [([127, 0, 0, 4], 30), ([127, 0, 0, 5], 30), ([0] * 15 + [1], 128), ([10, 0, 0, 0], 8), ([127, 0, 0, 6], 32)],
+    "g3": [([127, 0, 3, 0], 24), ([127, 0, 3, 1], 24), ([127, 9, 0, 0], 16), ([0] * 15 + [2], 127)],
+}
+
+
 def gen_group(r, name):
-    nets = " ".join("(net %s %d)" % (hexb(n), m) for n, m in (r.pick(NETS) for _ in range(r.pick([0, 1, 1, 2, 3]))))
-    return "(group %s %d %d %s %s %s %s %s %s %s %s %s (nets %s))" % (
-        name, r.pick([0, 65001, 65002, 65003, 65009]), r.pick([0, 0, 0, 65010]), opt_num(r, [0, 30, 90]), b(r), b(r), b(r),
-        opt_num(r, [16909060], 2), gen_fams(r), gen_sm(r, [IPV4, IPV6]), gen_gr(r), gen_llgr(r), nets)
+    """returns (text, [(prefix octets, mask)], expected AS)"""
+    pool = NETS if r.chance(1, 7) else NET_POOLS.get(name, NETS)
+    nets = [r.pick(pool) for _ in range(r.pick([0, 1, 1, 2, 3]))]
+    asn = r.pick([0, 65001, 65002, 65003, 65009])
+    text = "(group %s %d %d %s %s %s %s %s %s %s %s %s (nets %s))" % (
+        name, asn, r.pick([0, 0, 0, 65010]), opt_num(r, [0, 30, 90]), b(r), b(r), b(r),
+        opt_num(r, [16909060], 2), gen_fams(r), gen_sm(r, [IPV4, IPV6]), gen_gr(r), gen_llgr(r),
+        " ".join("(net %s %d)" % (hexb(n), m) for n, m in nets))
+    return text, nets, asn
+
+
+def gen_pol(r):
+    if r.chance(1, 2):
+        return "none"
+    names = r.pick([[], [], ["p1"], ["p2"], ["p1", "p2"], ["p2", "p1"], ["p1", "p1"], ["px"], ["p1", "px"]])
+    return "(some (%s (%s)))" % (r.pick(["accept", "reject"]), " ".join(names))
 
 
 def gen_peer(r, addr, groups):
     grp = r.pick([None, None] + groups + ["gx"])
-    return "(peer %s %d %d %d %s %s %s %s %s %s %s (pl %s) %s %s %s %s)" % (
-        ip(addr), r.pick([0, 0, 65001, 65002, 65003, 65009, 65000]), r.pick([0, 0, 0, 65001, 65010]),
-        r.pick([180, 180, 180, 0, 30, 90]), b(r), b(r, 1, 6), b(r), opt_num(r, [16909060, 1], 2), b(r, 1, 5),
+    exp = r.pick([0, 0, 65001, 65002, 65003, 65009, 65000])
+    down = b(r, 1, 5)
+    pol = gen_pol(r)
+    text = "(peer %s %d %d %d %s %s %s %s %s %s %s (pl %s) %s %s %s %s)" % (
+        ip(addr), exp, r.pick([0, 0, 0, 65001, 65010]),
+        r.pick([180, 180, 180, 0, 30, 90]), b(r), b(r, 1, 6), b(r), opt_num(r, [16909060, 1], 2), down,
         gen_fams(r), gen_sm(r, [IPV4, IPV6]), pairs([(r.pick(FAMS2), r.pick([0, 10, 1000])) for _ in range(r.pick([0, 0, 1, 2]))]),
-        gen_gr(r), gen_llgr(r), r.pick(["none", "none", "(some accept)", "(some reject)"]),
+        gen_gr(r), gen_llgr(r), pol,
         "none" if grp is None else "(some %s)" % grp)
+    return dict(exp=exp, down=(down == "t"), ok=("px" not in pol)), text
+
+
+def covers(net, mask, addr):
+    if len(net) != len(addr):
+        return False
+    for i in range(mask):
+        if (net[i // 8] >> (7 - i % 8)) & 1 != (addr[i // 8] >> (7 - i % 8)) & 1:
+            return False
+    return True
 
 
 def gen_hist(r):
     confed = r.pick(["none", "none", "(some (65000 (65002)))", "(some (65000 (65001 65002)))", "(some (65000 ()))",
                      "(some (65000 (65002 65003 65009)))"])
     gnames = ["g1", "g2", "g3"][: r.pick([0, 1, 1, 2, 2, 3])]
-    if gnames and r.chance(1, 10):
+    if gnames and r.chance(1, 12):
         gnames.append(gnames[0])         # same name twice: the later definition replaces the earlier
-    groups = [gen_group(r, n) for n in gnames]
+    gtexts, gnets, gasn = [], [], []
+    for n in gnames:
+        t, nets, asn = gen_group(r, n)
+        gtexts.append(t); gnets.append(nets); gasn.append(asn)
     npeers = r.pick([0, 1, 1, 2, 3])
     paddrs = [r.pick(ADDRS) for _ in range(npeers)]   # duplicates on purpose (second add fails)
-    peers = [gen_peer(r, a, gnames) for a in paddrs]
-    ops = []
+    pp = [gen_peer(r, a, gnames) for a in paddrs]
+    peers = [t for _, t in pp]
+    # a rough prediction of what the daemon will do, only to aim operations at sessions that exist
+    static = {}                           # addr -> dict(exp, down)
+    for a, (info, _) in zip(paddrs, pp):
+        if info["ok"] and tuple(a) not in static:
+            static[tuple(a)] = dict(exp=info["exp"], down=info["down"])
+    def dyn_as(a):
+        hits = [asn for nets, asn in zip(gnets, gasn) if any(covers(n, m, a) for n, m in nets)]
+        return hits[0] if len(hits) == 1 else None      # None: not covered, or ambiguous (history abandoned)
+    known_dyn = {}                        # addr -> expected AS of the dynamic neighbour that exists
+    slots = {}                            # (addr, role) -> sid holding the slot
+    live = {}                             # sid -> (addr, role, expected AS)
     nsess = 0
+    ops = []
+    def tear(a):
+        for role in "AP":
+            slots.pop((tuple(a), role), None)
     for _ in range(1 + r.below(r.pick([4, 8, 14]))):
-        k = r.weighted([("connect", 45), ("disc", 25), ("api", 30)])
+        k = r.weighted([("connect", 45), ("disc", 27), ("api", 28)])
+        if k != "connect" and not live and r.chance(4, 5):
+            k = "connect"                 # nothing to disconnect or tear down yet
         if k == "connect":
-            a = r.pick(ADDRS + paddrs + OUTSIDE) if r.chance(7, 8) else [127, r.below(4), r.below(4), 1 + r.below(12)]
-            ops.append("(connect %s %s)" % (ip(a), "P" if r.chance(3, 4) else "A"))
-            nsess += 1
+            pool = ADDRS + paddrs * 3 + OUTSIDE + [x[0] for x in live.values()]
+            a = r.pick(pool) if r.chance(7, 8) else [127, r.below(4), r.below(4), 1 + r.below(12)]
+            role = "P" if r.chance(3, 4) else "A"
+            ops.append("(connect %s %s)" % (ip(a), role))
+            ta = tuple(a)
+            exp = None
+            if ta in static:
+                if not static[ta]["down"] and (ta, role) not in slots:
+                    exp = static[ta]["exp"]
+            elif ta in known_dyn:
+                if (ta, role) not in slots:
+                    exp = known_dyn[ta]
+            else:
+                exp = dyn_as(a)
+                if exp is not None:
+                    known_dyn[ta] = exp
+            if exp is not None:
+                live[nsess] = (a, role, exp); slots[(ta, role)] = nsess; nsess += 1
         elif k == "disc":
-            ops.append("(disc %d)" % r.below(nsess + 1))
+            if live and r.chance(7, 8):
+                sid = r.pick(sorted(live))
+            else:
+                sid = r.below(nsess + 2)
+            a, role, exp = live.pop(sid, (ADDRS[0], "P", 0))
+            ta = tuple(a)
+            if slots.get((ta, role)) == sid:
+                slots.pop((ta, role))
+            if ta in known_dyn and not any(k2[0] == ta for k2 in slots):
+                known_dyn.pop(ta)
+            if r.chance(2, 5):
+                asn = (exp or 65002) if r.chance(2, 3) else r.pick([65001, 65002, 65003, 65009, 65000, 4200000001])
+                ops.append("(discx %d %d %d)" % (sid, asn, r.pick([90, 90, 0, 3, 30])))
+            else:
+                ops.append("(disc %d)" % sid)
         else:
-            a = r.pick(ADDRS + paddrs) if r.chance(9, 10) else r.pick(OUTSIDE)
-            ops.append("(%s %s)" % (r.pick(["enable", "disable", "delete", "shutdown", "reset"]), ip(a)))
+            connected = [x[0] for x in live.values()]
+            if connected and r.chance(2, 3):
+                a = r.pick(connected)
+            else:
+                a = r.pick(ADDRS + paddrs) if r.chance(9, 10) else r.pick(OUTSIDE)
+            ta = tuple(a)
+            op = r.pick(["enable", "disable", "delete", "shutdown", "reset"])
+            if op == "delete":
+                if ta in static or ta in known_dyn:
+                    tear(a)
+                static.pop(ta, None); known_dyn.pop(ta, None)
+            elif op in ("shutdown", "reset"):
+                if ta in static or ta in known_dyn:
+                    tear(a)
+            elif op == "disable":
+                if ta in static and not static[ta]["down"]:
+                    static[ta]["down"] = True; tear(a)
+                elif ta in known_dyn:
+                    tear(a)
+            elif op == "enable" and ta in static:
+                static[ta]["down"] = False
+            ops.append("(%s %s)" % (op, ip(a)))
     return "(hist (global %d %d %s) (groups %s) (peers %s) (ops %s))" % (
-        r.pick([65001, 65001, 65002]), r.pick([16843009, 1]), confed, " ".join(groups), " ".join(peers), " ".join(ops))
+        r.pick([65001, 65001, 65002]), r.pick([16843009, 1]), confed, " ".join(gtexts), " ".join(peers), " ".join(ops))
 
 
 def gen_malformed(r):
